@@ -30,9 +30,12 @@ LEVEL_TEXT = ('Partial. Coq theorems over R: the regenerated flow direction is t
               'committed state (envelope argument) -- both tied/tested on the code (L1/L2); jax.grad of the regenerated hardening energies = written-out '
               'flow stresses is tied by the stream flow_stress.')
 TECHNIQUE = 'Coq proof (Reals + Coquelicot) over kernels regenerated from the Python AST and a scalar state machine reusing the C17 model; vm_compute/PrimFloat correspondence'
-GEN = ['ScalarRootFind', 'Hardening', 'TensorMath', 'J2Flow', 'J2Elastic']
-TARGETS = ['proofs/L_C09.vo', 'proofs/L_C09r.vo', 'proofs/L_C09T.vo', 'model/M_C09.vo', 'model/M_C09T.vo']
-COQ_FILES = ['base/Num.v', 'model/M_C17.v', 'model/M_C09.v', 'model/M_C09T.v', 'proofs/L_C17.v', 'proofs/L_C09.v', 'proofs/L_C09r.v', 'proofs/L_C09T.v', 'props/P_C09.v']
+GEN = ['ScalarRootFind', 'Hardening', 'TensorMath', 'J2Flow', 'J2Elastic', 'J2Finite']
+TARGETS = ['proofs/L_C09.vo', 'proofs/L_C09r.vo', 'proofs/L_C09T.vo', 'proofs/L_C09F.vo', 'proofs/L_C09G.vo', 'proofs/L_C09N.vo', 'proofs/L_C09L.vo',
+           'model/M_C09.vo', 'model/M_C09T.vo', 'model/M_C09F.vo']
+COQ_FILES = ['base/Num.v', 'model/M_C17.v', 'model/M_C09.v', 'model/M_C09T.v', 'model/M_C09F.v', 'model/M_C11s.v', 'proofs/L_C17.v', 'proofs/L_C09.v', 'proofs/L_C09r.v',
+             'proofs/L_C09T.v', 'proofs/L_C09F.v', 'proofs/L_C09G.v', 'proofs/L_C09N.v', 'proofs/L_C09L.v', 'proofs/L_C11s.v', 'proofs/L_C11t.v', 'proofs/L_C11e.v',
+             'proofs/L_C11u.v', 'props/P_C09.v']
 TRUSTED = ['Coq 8.16.1 kernel + vm_compute (no native_compute)',
            'tools/vlib/py2coq.py translator (Hardening.{linear,voce,power_law,power_law_rate_sensitivity}, J2Plastic.compute_flow_direction, '
            'elastic_deviatoric_free_energy, TensorMath.dev, ScalarRootFind loop kernels)',
@@ -51,7 +54,7 @@ RULE = ('inputs: seeded material constants (E, nu, Y0, hardening parameters, rat
         'x rate sensitivity (quick: 6 of 18 per run covering every kinematics and law; thorough: all 18), batches of multi-step displacement-gradient '
         'histories (monotonic, reversing, non-proportional random walks, repeated states, lanes of tiny increments sweeping the overstress from 1e-12 to 1e-6 Y0 across yield, E/Y0 from 30 to 1e4, perfect plasticity and a saturating Voce law in every run, increments from 1e-3 to 30 yield strains with the accumulated strain norm kept below 0.8, time steps 1e-3..10); '
         'a step is non-trivial when it yields; distinct = distinct (configuration, history, step) triples that yield')
-IMPORTS = ['From OV.gen Require Import Gen_Hardening Gen_J2Flow.', 'From OV.model Require Import M_C09 M_C09T.']
+IMPORTS = ['From OV.gen Require Import Gen_Hardening Gen_J2Flow.', 'From OV.model Require Import M_C09 M_C09T M_C09F.']
 
 KINS = ['large deformations', 'small deformations', 'seth hill']
 LAWS = ['linear', 'voce', 'power law']
@@ -218,7 +221,17 @@ def make_step(cfg):
         phi_star = J2.incremental_potential(Etr, new[0], eo, dt, props, hm)
         M = new[1:].reshape((3, 3))
         iso = jnp.where(finite, jnp.linalg.det(M) - 1.0, jnp.trace(M))
-        return dict(new=new, s=s, Yo=Yo, Y_ub=Y_ub, r_near=r_near, r_hi=r_hi, r_lo=r_lo, dY_new=dY_new, s_new=s_new, Y_new=Y_new, W_old=W_old, W_new=W_new, dP=jnp.max(jnp.abs(P_old - P_new)), Pn=jnp.max(jnp.abs(P_old)),
+        if finite:
+            # stream `tensor_finite`: what the code's own log_sqrt_symm / exp_symm return on this step (fed to the model as oracle values),
+            # and the intermediate results the model is compared with
+            Fp = state[1:].reshape((3, 3))
+            Fe = (H + jnp.eye(3)) @ TensorMath.inv(Fp)
+            o_lss = TensorMath.log_sqrt_symm(Fe.T @ Fe).ravel()
+            o_inc = J2.compute_state_increment(Etr, state, dt, props, hm)
+            o_expm = TensorMath.exp_symm(o_inc[1:].reshape((3, 3))).ravel()
+        else:
+            o_lss, o_inc, o_expm = jnp.zeros(9), jnp.zeros(10), jnp.zeros(9)
+        return dict(o_lss=o_lss, o_inc=o_inc, o_expm=o_expm, o_Etr=Etr.ravel(), new=new, s=s, Yo=Yo, Y_ub=Y_ub, r_near=r_near, r_hi=r_hi, r_lo=r_lo, dY_new=dY_new, s_new=s_new, Y_new=Y_new, W_old=W_old, W_new=W_new, dP=jnp.max(jnp.abs(P_old - P_new)), Pn=jnp.max(jnp.abs(P_old)),
                     new2=new2, es=es, phi=phi, phi_star=phi_star, iso=iso, trN=jnp.trace(N), NN=jnp.tensordot(N, N), mu=mu + 0 * eo)
 
     return jax.jit(jax.vmap(step)), mm
@@ -239,6 +252,7 @@ def run_config(ctx, cfg, nb, ns):
             recs.append(dict(b=b, k=k, H=[[float(x) for x in row] for row in Hs[b, k]], dt=float(dts[b, k]), state=[float(x) for x in state[b]],
                              new=[float(x) for x in o['new'][b]], new2=[float(x) for x in o['new2'][b]],
                              es=[float(x) for x in o['es'][b]], phi=[float(x) for x in o['phi'][b]],
+                             **{q: [float(x) for x in o[q][b]] for q in ('o_lss', 'o_inc', 'o_expm', 'o_Etr')},
                              **{q: float(o[q][b]) for q in ('s', 'Yo', 'Y_ub', 'r_near', 'r_hi', 'r_lo', 'dY_new', 's_new', 'Y_new', 'W_old', 'W_new', 'dP', 'Pn', 'phi_star', 'iso', 'trN', 'NN', 'mu')}))
         state = o['new']
     return recs
@@ -497,6 +511,129 @@ def tensor_small_checks(ctx, l1):
     ctx.count('evaluations', len(sel))
 
 
+def structure_checks(ctx):
+    """structural tie of model/M_C09F.v: compute_state_new_finite_deformations is, statement by statement,
+         elasticTrialStrain = compute_elastic_logarithmic_strain(dispGrad, stateOld)           -> M_C09F.strain_log (regenerated kernel)
+         stateInc = compute_state_increment(elasticTrialStrain, stateOld, dt, props, hardening_model)  -> M_C09T.state_increment
+         eqpsNew / FpOld / FpNew                                                                -> regenerated tail (Gen_J2Finite)
+         return np.hstack((eqpsNew, FpNew.ravel()))                                             -> M_C09F.tail_fin
+    read off the source AST on every run."""
+    import ast
+    import os
+    src = open(os.path.join(C.REPO, 'optimism', 'material', 'J2Plastic.py')).read()
+    fns = {n.name: n for n in ast.parse(src).body if isinstance(n, ast.FunctionDef)}
+    bad = []
+    fn = fns.get('compute_state_new_finite_deformations')
+    if fn is None:
+        bad.append('compute_state_new_finite_deformations not found')
+    else:
+        got = [ast.unparse(st) for st in fn.body]
+        args = [a.arg for a in fn.args.args]
+        if args != ['dispGrad', 'stateOld', 'dt', 'props', 'hardening_model']:
+            bad.append('parameters %r' % args)
+        want = {0: 'elasticTrialStrain = compute_elastic_logarithmic_strain(dispGrad, stateOld)',
+                1: 'stateInc = compute_state_increment(elasticTrialStrain, stateOld, dt, props, hardening_model)',
+                len(got) - 1: 'return np.hstack((eqpsNew, FpNew.ravel()))'}
+        for i, w in want.items():
+            if i >= len(got) or got[i] != w:
+                bad.append('statement %d is %r, the model assumes %r' % (i, got[i] if i < len(got) else None, w))
+        assigned = [t.id for st in fn.body if isinstance(st, ast.Assign) for t in st.targets if isinstance(t, ast.Name)]
+        if assigned != ['elasticTrialStrain', 'stateInc', 'eqpsNew', 'FpOld', 'FpNew']:
+            bad.append('assignments %r' % assigned)
+    for b in bad:
+        ctx.fail('correspondence', 'structure of compute_state_new_finite_deformations differs from model/M_C09F.v: ' + b, case=dict(what=b))
+    ctx.count('structure_checks', 1)
+    return len(bad)
+
+
+def tensor_finite_checks(ctx, l1):
+    """stream `tensor_finite`: the tensor-level model of the FINITE-DEFORMATION update (model/M_C09F.v: regenerated logarithmic trial strain,
+    flow direction, scalar root solve, regenerated multiplicative tail exp_symm(dEp) @ FpOld, _energy_density) at binary64 vs
+    compute_elastic_logarithmic_strain / compute_state_increment / compute_state_new / compute_energy_density on the steps of this run's
+    large-deformation histories.  The two spectral functions are oracles: the model is fed what the code's own log_sqrt_symm / exp_symm
+    returned on that step (their spectral form is model/M_C11s.v, tied by C11/C12)."""
+    from optimism.material import J2Plastic as J2
+    r = ctx.rng('tensor_finite')
+    cand = [x for x in l1 if x[0]['kin'] == 'large deformations']
+    yl = [x for x in cand if x[1]['new'][0] > x[1]['state'][0]]
+    el = [x for x in cand if not x[1]['new'][0] > x[1]['state'][0]]
+    r.shuffle(yl)
+    r.shuffle(el)
+    sel = yl[:ctx.n(40, 400)] + el[:ctx.n(12, 100)]
+    cf = C.cf
+
+    def m9(v):
+        return '(%s)' % ', '.join(cf(x) for x in v)
+
+    def const9(v):
+        return '(fun _ _ _ _ _ _ _ _ _ => %s)' % m9(v)
+
+    ex = []
+    for cfg, rec in sel:
+        P = cfg['props']
+        kappa = float(J2.make_properties(P['elastic modulus'], P['poisson ratio'], P['yield strength'])[J2.PROPS_KAPPA])
+        H = [x for row in rec['H'] for x in row]
+        st = '(%s, %s)' % (cf(rec['state'][0]), m9(rec['state'][1:]))
+        lw, rt, mu, dt = coq_law(P), coq_rate(P), cf(rec['mu']), cf(rec['dt'])
+        lss, expm = const9(rec['o_lss']), const9(rec['o_expm'])
+        ex.append('enc_m9 (strain_log %s %s %s)' % (lss, m9(H), st))
+        ex.append('enc_tstate (state_increment %s %s %s %s (strain_log %s %s %s) %s)' % (lw, rt, mu, dt, lss, m9(H), st, cf(rec['state'][0])))
+        ex.append('enc_tstate (state_new_fin %s %s %s %s %s %s %s %s)' % (lss, expm, lw, rt, mu, dt, m9(H), st))
+        ex.append('enc_optf (energy_fin %s %s %s %s %s %s %s %s)' % (lss, lw, rt, mu, cf(kappa), dt, m9(H), st))
+    res = C.coq_eval(IMPORTS, ex, 'C09F', shard=80)
+    mism = skipped = 0
+    for i, (cfg, rec) in enumerate(sel):
+        P = cfg['props']
+        Y0, E = P['yield strength'], P['elastic modulus']
+        tol = 1e-10 * Y0
+        re0, ri, rs, re_ = res[4 * i:4 * i + 4]
+        what = None
+        # (a) the regenerated trial-strain kernel (glue around log_sqrt_symm): always compared
+        got_E = C.dec_floats(re0)
+        sc = max(abs(x) for x in rec['o_Etr']) + 1e-300
+        dE = max(abs(a - b) for a, b in zip(got_E, rec['o_Etr']))
+        if dE > 1e-12 * sc + 1e-15:
+            what = 'model trial strain differs from compute_elastic_logarithmic_strain by %r' % dE
+        if what is None and abs(rec['s'] - rec['Yo'] - tol) < 1e-9 * (abs(rec['s']) + tol):
+            skipped += 1
+            continue
+        d_impl = rec['new'][0] - rec['state'][0]
+        lim = 6 * tol / (3 * rec['mu']) + 1e-8 * abs(d_impl) + 1e-16
+        if what is None and (ri[0] == 0 or rs[0] == 0 or re_[0] == 0):
+            what = 'model increment / state / energy is NaN, implementation gives eqps %r -> %r' % (rec['state'][0], rec['new'][0])
+        if what is None:
+            inc = C.dec_floats(ri[1:])
+            if abs(inc[0] - rec['o_inc'][0]) > lim:
+                what = 'model Delta eqps = %r, compute_state_increment gives %r' % (inc[0], rec['o_inc'][0])
+            else:
+                dm = max(abs(a - b) for a, b in zip(inc[1:], rec['o_inc'][1:]))
+                if dm > 1.3 * lim + 1e-13 * max(abs(x) for x in rec['o_inc'][1:] + [1e-300]):
+                    what = 'model plastic increment Delta eqps * N differs from compute_state_increment by %r' % dm
+        if what is None:
+            got = C.dec_floats(rs[1:])
+            if abs((got[0] - rec['state'][0]) - d_impl) > lim:
+                what = 'model eqps_new = %r, implementation %r' % (got[0], rec['new'][0])
+            else:
+                # the model multiplies the code's OWN exp_symm value with FpOld: only the product and its order are compared here
+                dm = max(abs(a - b) for a, b in zip(got[1:], rec['new'][1:]))
+                if dm > 1e-12 * max(abs(x) for x in rec['new'][1:]):
+                    what = 'model FpNew = exp_symm(dEp) @ FpOld differs from the implementation by %r (model %r, implementation %r)' % (dm, got[1:], rec['new'][1:])
+        if what is None:
+            w_model = C.dec_floats(re_[1:])[0]
+            if not C.close(w_model, rec['W_old'], rtol=1e-9, atol=1e-9 * Y0 * Y0 / E):
+                what = 'model energy density %r, implementation %r' % (w_model, rec['W_old'])
+        if what:
+            mism += 1
+            if mism <= 5:
+                ctx.fail('correspondence', 'tensor-level finite-deformation model: %s (%s rate=%s, step %d of history %d)' % (what, cfg['law'], cfg['rate'], rec['k'], rec['b']),
+                         case=dict(props=P, H=rec['H'], state=rec['state'], dt=rec['dt'], impl_new=rec['new']))
+    ctx.count('tensor_finite_comparisons', len(sel))
+    ctx.count('tensor_finite_yielding', min(len(yl), ctx.n(40, 400)))
+    ctx.count('tensor_finite_near_tie_skipped', skipped)
+    ctx.count('tensor_finite_mismatches', mism)
+    ctx.count('evaluations', len(sel))
+
+
 def correspondence(ctx, model_ok):
     cfgs = gen_configs(ctx)
     nb, ns = ctx.n(13, 36), ctx.n(8, 16)
@@ -529,12 +666,17 @@ def correspondence(ctx, model_ok):
     ctx.count('yielding_steps', yielding)
     ctx.count('rate_steps_root_within_one_ulp_of_result', WITHIN_ULP[0])
     ctx.cov['configurations'] = hist
+    structure_checks(ctx)
+    ctx.log('implementation histories and conclusions done (%d steps)' % total)
     if not model_ok:
         return
     # ---- L1: regenerated kernels, then the scalar radial-return model against compute_state_new
     kernel_checks(ctx)
     flow_stress_checks(ctx)
     tensor_small_checks(ctx, l1)
+    ctx.log('streams kernels, flow_stress, tensor_small done')
+    tensor_finite_checks(ctx, l1)
+    ctx.log('stream tensor_finite done')
     r = ctx.rng('l1')
     pick = [x for x in l1 if x[1]['new'][0] > x[1]['state'][0]]
     rest = [x for x in l1 if not x[1]['new'][0] > x[1]['state'][0]]
